@@ -163,10 +163,14 @@ def shrink(stream, hbin, case, pred, workdir, budget=120):
 
 
 def load_known():
-    p = os.path.join(VERIF, "known_findings.json")
-    if not os.path.exists(p):
-        return []
-    return json.load(open(p)).get("findings", [])
+    """findings/*.json, one file per finding (never written at run time)."""
+    d = os.path.join(VERIF, "findings")
+    res = []
+    if os.path.isdir(d):
+        for f in sorted(os.listdir(d)):
+            if f.endswith(".json"):
+                res.append(json.load(open(os.path.join(d, f))))
+    return res
 
 
 def match_known(known, prop, signature):
